@@ -15,7 +15,7 @@ Local Open Scope N_scope.
    out big-endian ("big endian split"); rows with an 8-bit prefix hold the
    value in the payload bytes little-endian ("little endian external"). *)
 Record sf_level := SfLevel {
-  lv_prefix : N; lv_pbits : N; lv_payload : nat; lv_base : N; lv_used : bool }.
+  sflv_prefix : N; sflv_pbits : N; sflv_payload : nat; sflv_base : N; sflv_used : bool }.
 
 (*   |00pppppp|                      <= 63
      |01pppppp|qqqqqqqq|             <= 2^14 - 1 + 63
@@ -53,75 +53,75 @@ Definition sfnz_table : list sf_level :=
 (* ---- generic interpreter ---- *)
 
 (* value bits a level offers *)
-Definition lv_bits (l : sf_level) : N := 8 * N.of_nat (lv_payload l) + (8 - lv_pbits l).
+Definition sflv_bits (l : sf_level) : N := 8 * N.of_nat (sflv_payload l) + (8 - sflv_pbits l).
 (* total encoded length *)
-Definition lv_len (l : sf_level) : nat := S (lv_payload l).
+Definition sflv_len (l : sf_level) : nat := S (sflv_payload l).
 (* largest 64-bit value the level can hold *)
-Definition lv_max (l : sf_level) : N :=
-  N.min (lv_base l + 2 ^ lv_bits l - 1) 18446744073709551615.
+Definition sflv_max (l : sf_level) : N :=
+  N.min (sflv_base l + 2 ^ sflv_bits l - 1) 18446744073709551615.
 
-Definition lv_encode (l : sf_level) (x : N) : list N :=
-  let v := x - lv_base l in
-  if lv_pbits l =? 8 then lv_prefix l :: le_bytes (lv_payload l) v
-  else be_bytes (lv_len l) (lv_prefix l * 2 ^ lv_bits l + v).
+Definition sflv_encode (l : sf_level) (x : N) : list N :=
+  let v := x - sflv_base l in
+  if sflv_pbits l =? 8 then sflv_prefix l :: le_bytes (sflv_payload l) v
+  else be_bytes (sflv_len l) (sflv_prefix l * 2 ^ sflv_bits l + v).
 
 (* the first used level (table order) that can hold x *)
-Fixpoint tbl_find (t : list sf_level) (x : N) : option sf_level :=
+Fixpoint sftbl_find (t : list sf_level) (x : N) : option sf_level :=
   match t with
   | [] => None
-  | l :: t' => if lv_used l && (lv_base l <=? x) && (x <=? lv_max l) then Some l
-               else tbl_find t' x
+  | l :: t' => if sflv_used l && (sflv_base l <=? x) && (x <=? sflv_max l) then Some l
+               else sftbl_find t' x
   end.
 
-Definition tbl_encode (t : list sf_level) (x : N) : list N :=
-  match tbl_find t x with Some l => lv_encode l x | None => [] end.
-Definition tbl_len (t : list sf_level) (x : N) : N :=
-  match tbl_find t x with Some l => N.of_nat (lv_len l) | None => 0 end.
+Definition sftbl_encode (t : list sf_level) (x : N) : list N :=
+  match sftbl_find t x with Some l => sflv_encode l x | None => [] end.
+Definition sftbl_len (t : list sf_level) (x : N) : N :=
+  match sftbl_find t x with Some l => N.of_nat (sflv_len l) | None => 0 end.
 
 (* largest value stored in at most k bytes by the used levels *)
-Definition tbl_max (t : list sf_level) (k : N) : N :=
-  fold_left (fun m l => if lv_used l && (N.of_nat (lv_len l) <=? k) then N.max m (lv_max l) else m) t 0.
+Definition sftbl_max (t : list sf_level) (k : N) : N :=
+  fold_left (fun m l => if sflv_used l && (N.of_nat (sflv_len l) <=? k) then N.max m (sflv_max l) else m) t 0.
 
 (* largest value held by an embedded (2-bit prefix) level *)
-Definition tbl_emax (t : list sf_level) : N :=
-  fold_left (fun m l => if lv_used l && (lv_pbits l =? 2) then N.max m (lv_max l) else m) t 0.
+Definition sftbl_emax (t : list sf_level) : N :=
+  fold_left (fun m l => if sflv_used l && (sflv_pbits l =? 2) then N.max m (sflv_max l) else m) t 0.
 
 (* decoder of the documented format, unused row included (it is a
    well-formed byte string of the layout, the encoder just never emits it):
    the row whose prefix and total length match. *)
-Definition lv_matches (l : sf_level) (b : list N) : bool :=
-  (length b =? lv_len l)%nat &&
-  (if lv_pbits l =? 8 then nth 0 b 0 =? lv_prefix l else nth 0 b 0 / 64 =? lv_prefix l).
-Definition lv_decode (l : sf_level) (b : list N) : N :=
-  lv_base l +
-  (if lv_pbits l =? 8 then of_le (tl b) else of_be b - lv_prefix l * 2 ^ lv_bits l).
-Fixpoint tbl_denote (t : list sf_level) (b : list N) : option N :=
+Definition sflv_matches (l : sf_level) (b : list N) : bool :=
+  (length b =? sflv_len l)%nat &&
+  (if sflv_pbits l =? 8 then nth 0 b 0 =? sflv_prefix l else nth 0 b 0 / 64 =? sflv_prefix l).
+Definition sflv_decode (l : sf_level) (b : list N) : N :=
+  sflv_base l +
+  (if sflv_pbits l =? 8 then of_le (tl b) else of_be b - sflv_prefix l * 2 ^ sflv_bits l).
+Fixpoint sftbl_denote (t : list sf_level) (b : list N) : option N :=
   match t with
   | [] => None
-  | l :: t' => if lv_matches l b then Some (lv_decode l b) else tbl_denote t' b
+  | l :: t' => if sflv_matches l b then Some (sflv_decode l b) else sftbl_denote t' b
   end.
 
-Definition sf_spec (x : N) : list N := tbl_encode sf_table x.
-Definition sf_spec_len (x : N) : N := tbl_len sf_table x.
-Definition sf_max (k : N) : N := tbl_max sf_table k.
-Definition sf_denote (b : list N) : option N := tbl_denote sf_table b.
-Definition sf_emax : N := tbl_emax sf_table.
-Definition sfnz_spec (x : N) : list N := tbl_encode sfnz_table x.
-Definition sfnz_spec_len (x : N) : N := tbl_len sfnz_table x.
-Definition sfnz_max (k : N) : N := tbl_max sfnz_table k.
-Definition sfnz_denote (b : list N) : option N := tbl_denote sfnz_table b.
-Definition sfnz_emax : N := tbl_emax sfnz_table.
+Definition sf_spec (x : N) : list N := sftbl_encode sf_table x.
+Definition sf_spec_len (x : N) : N := sftbl_len sf_table x.
+Definition sf_max (k : N) : N := sftbl_max sf_table k.
+Definition sf_denote (b : list N) : option N := sftbl_denote sf_table b.
+Definition sf_emax : N := sftbl_emax sf_table.
+Definition sfnz_spec (x : N) : list N := sftbl_encode sfnz_table x.
+Definition sfnz_spec_len (x : N) : N := sftbl_len sfnz_table x.
+Definition sfnz_max (k : N) : N := sftbl_max sfnz_table k.
+Definition sfnz_denote (b : list N) : option N := sftbl_denote sfnz_table b.
+Definition sfnz_emax : N := sftbl_emax sfnz_table.
 
 (* reversed layout: embedded levels byte-reversed, external levels keep the
    little-endian payload and move the type byte to the end *)
-Definition lv_encode_rev (l : sf_level) (x : N) : list N :=
-  let v := x - lv_base l in
-  if lv_pbits l =? 8 then le_bytes (lv_payload l) v ++ [lv_prefix l]
-  else le_bytes (lv_len l) (lv_prefix l * 2 ^ lv_bits l + v).
-Definition tbl_encode_rev (t : list sf_level) (x : N) : list N :=
-  match tbl_find t x with Some l => lv_encode_rev l x | None => [] end.
-Definition sf_spec_rev (x : N) : list N := tbl_encode_rev sf_table x.
-Definition sfnz_spec_rev (x : N) : list N := tbl_encode_rev sfnz_table x.
+Definition sflv_encode_rev (l : sf_level) (x : N) : list N :=
+  let v := x - sflv_base l in
+  if sflv_pbits l =? 8 then le_bytes (sflv_payload l) v ++ [sflv_prefix l]
+  else le_bytes (sflv_len l) (sflv_prefix l * 2 ^ sflv_bits l + v).
+Definition sftbl_encode_rev (t : list sf_level) (x : N) : list N :=
+  match sftbl_find t x with Some l => sflv_encode_rev l x | None => [] end.
+Definition sf_spec_rev (x : N) : list N := sftbl_encode_rev sf_table x.
+Definition sfnz_spec_rev (x : N) : list N := sftbl_encode_rev sfnz_table x.
 
 (* EXTRACT: sf_spec sf_spec_len sf_max sf_emax sfnz_emax sf_denote sf_spec_rev
    sfnz_spec sfnz_spec_len sfnz_max sfnz_denote sfnz_spec_rev *)
